@@ -71,16 +71,85 @@ def attempt(nfc, drv, kind, variant, choice, payload, timeout, fault):
         role = world.activate(w, kind, variant)
         data, label = world.exchange_args(kind, choice, payload)
         tr = w.transport
+        other = None
+        if fault is not None and fault["stage"] == "thread":
+            other = OtherThread(w.clf)
+            tr.thread_hook = other.close_frontend
         tr.arm(fault)
         try:
             val = w.clf.exchange(data, timeout)
             out = "ret"
         except Exception as e:
             val, out = e, "raised"
+        if other is not None:
+            tr.thread_hook = None
+            other.finish()
         res = {"out": out, "val": val, "m": tr.ncmd, "cmds": list(tr.cmds), "fired": tr.fired, "role": role,
                "label": label, "bad": list(w.chip.bad_frames), "family": w.family}
         tr.disarm()
         return res
+
+
+class OtherThread(object):
+    """A second application thread that closes the frontend while exchange() is under way.  It is a real thread that is
+    released at one point (a host command of the exchange) and then runs until it has finished close() or waits for the
+    frontend lock -- one of the two happens whatever the timing, and only then does the exchange go on."""
+
+    class LockProbe(object):
+        def __init__(self, real):
+            import threading
+            self.real, self.waiting, self.owner = real, threading.Event(), threading.get_ident()
+
+        def acquire(self, blocking=True, timeout=-1):
+            import threading
+            if self.real.acquire(False):
+                return True
+            if threading.get_ident() != self.owner:
+                self.waiting.set()
+            return self.real.acquire(blocking, timeout)
+
+        def release(self):
+            self.real.release()
+
+        def locked(self):
+            return self.real.locked()
+
+        __enter__ = acquire
+
+        def __exit__(self, *a):
+            self.release()
+
+    def __init__(self, clf):
+        import threading
+        self.clf = clf
+        self.probe = clf.lock = OtherThread.LockProbe(clf.lock)
+        self.done = threading.Event()
+        self.exc = None
+        self.thread = None
+        self.waited = False
+
+    def close_frontend(self, fault):
+        import threading
+
+        def closer():
+            try:
+                self.clf.close()
+            except Exception as e:
+                self.exc = e
+            finally:
+                self.done.set()
+        self.thread = threading.Thread(target=closer, daemon=True)
+        self.thread.start()
+        while not self.done.wait(0.0005):
+            if self.probe.waiting.is_set():
+                self.waited = True
+                break
+
+    def finish(self):
+        if self.thread is not None:
+            self.thread.join(10.0)
+            if self.thread.is_alive():
+                raise core.HarnessError("the closing thread did not finish")
 
 
 def fault_plan(sim, drv, cmds, tier, chip_info):
@@ -117,6 +186,8 @@ def fault_plan(sim, drv, cmds, tier, chip_info):
             plan.append({"at": i, "stage": "ack", "kind": "dup_ack", "arg": 0})
         plan.append({"at": i, "stage": "write", "kind": "eio", "arg": 0})
         plan.append({"at": i, "stage": "write", "kind": "enodev", "arg": 0})
+        # another application thread closes the frontend while this host command is under way
+        plan.append({"at": i, "stage": "thread", "kind": "close", "arg": 0})
         if chip_info["is_rf"](code):
             if family == "rcs380":
                 words = [0] + RCS380_BITS + [sum(RCS380_BITS)]
